@@ -152,18 +152,43 @@ def nothing_in_clear_after_init(ctx, res):
                 res.fail('payload-outside-sk', '%s: a datagram of exchange type %d (%d octets) carries payload type %d outside the encrypted payload'
                          % (what, data[18], len(data), nxt), dict(rep, datagram=bytes(data).hex()[:400]))
                 return
-    for k in range(ctx.scale(6, 60)):
+    # sessions under configurations in which the two ends list the IKE algorithms in opposite orders (what protects a message is the
+    # NEGOTIATED suite, not the sender's first choice) and in which every IKE_SA negotiation goes through an INVALID_KE_PAYLOAD round;
+    # every protected datagram must be valid for the IKE_SA it addresses at the other end, also on a rekeyed IKE_SA
+    import stateful as S
+    variants = [{}, {'encr': ['aes128', 'aes256'], 'encr_b': ['aes256', 'aes128'], 'integ': ['sha1', 'sha256'], 'integ_b': ['sha256', 'sha1'],
+                     'prf': ['sha1', 'sha256'], 'prf_b': ['sha256', 'sha1']},
+                {'integ': ['sha512', 'sha1'], 'integ_b': ['sha1', 'sha512'], 'encr': ['aes256', 'aes128'], 'encr_b': ['aes128']},
+                {'dh': ['15', '14'], 'dh_b': ['14'], 'dpd': 1000}, S.CONF_VARIANTS[5], S.CONF_VARIANTS[4]]
+    for k in range(ctx.scale(12, 60)):
         seed = rng.randrange(1 << 30)
-        with CP.History(seed, trace=False) as h:
+        conf = variants[k % len(variants)]
+        with CP.History(seed, trace=False, **conf) as h:
+            h.oracles = [CP.o_emitted_valid_at_peer]
             w = h.w
-            rep = {'seed': seed, 'scenario': 'ordinary session'}
-            h.establish(rng.choice('AB'))
-            for _ in range(30):
+            rep = {'seed': seed, 'conf': conf, 'scenario': 'ordinary session'}
+            h.establish('A' if k % 2 == 0 else 'B')
+            for _ in range(20):
                 h.random_op()
             h.settle()
+            # an IKE_SA rekey started by either end, then a liveness check from each end on whatever IKE_SAs there are
+            for ep in (w.A, w.B):
+                live = [x for x in ep.sas() if int(x.state) == 10]
+                if live and not h.findings:
+                    live[0].rekey_ike_sa_at = w.now - 1
+                    h.op('tick', 0)
+                    h.settle(60)
+                for x in [x for x in ep.sas() if int(x.state) == 10]:
+                    x.start_dpd_at = w.now - 1
+                if not h.findings:
+                    h.op('tick', 0)
+                    h.settle(60)
             res.evaluations += len(w.sent)
             res.count('clear-check:ordinary-datagrams', len(w.sent))
+            res.count('session-conf:%d' % (k % len(variants)))
             check(w, 'ordinary session', rep)
+            for key, what, at in h.findings[:2]:
+                res.fail(key, what, dict(rep, ops=S.ser_ops(h.ops[:at + 1])))
     for exch in (35, 36, 37):
         for target in ('initiator-waiting', 'fresh-responder'):
             seed = rng.randrange(1 << 30)
